@@ -1,13 +1,23 @@
-"""C03, one slice: recursive entity expansion in attribute values, `info::attr_value_from_name` (info/src/lib.rs) -- reached by
-`Attr::value`, `Element::get_attribute`, XPath `string(@a)` on any attribute whose value contains an entity reference.
+"""Attribute values: `info::attr_value_from_name(_within)` and `XmlAttribute::normalized_value` (info/src/lib.rs) -- reached
+by `Attr::value`, `Element::get_attribute`, namespace lookup, XPath `string(@a)`.  Serves two properties.
 
-Obligations: the recursion TERMINATES (Verus demands a `decreases` measure for a recursive exec function; nothing in the
-data bounds a chain of entity references unless the code bounds it -- cyclic declarations are ordinary parser output) and the
-function cannot panic (parameter-entity references are `unimplemented!`).  The entity table and the values of an entity are
-assumed callees (live document); of the values only "the radix of a character reference is 10 or 16" is assumed, which is
-what the parser produces."""
+C03: the recursion on entity references TERMINATES (Verus demands a `decreases` measure of a recursive exec function;
+nothing in the data bounds a chain of references unless the code bounds it -- declarations that refer to each other in a
+circle are ordinary parser output) and no panic site is reachable (parameter-entity references were `unimplemented!`).
+
+C11 (XML 1.0 3.3.3): the value is the concatenation, piece by piece, of
+  * the referenced character, unchanged, for a character reference in the attribute value;
+  * the white-space-normalized text for literal text;
+  * for an entity reference, the recursive expansion of the entity's REPLACEMENT TEXT with its white space normalized --
+    a character reference inside the entity's literal value is part of that replacement text, so a referenced tab / CR / LF
+    arrives as a space (the recommendation's own example: <!ENTITY d "&#xD;"> ... a="&d;" gives one space);
+and, when the attribute is declared with a type other than CDATA, of that string with leading / trailing spaces dropped and
+runs of spaces collapsed.
+
+The entity table (`Context::entity`), the value list of an entity and the declared type are assumed callees over the live
+document, tied to uninterpreted spec functions; `char_from_char10/16` and `normalize_ws` are verified in
+units/info_helpers.py and assumed here with the contracts proved there."""
 import os
-import re
 
 from vf.unit import Fn, Rule
 from vf import unit as U
@@ -39,37 +49,267 @@ pub enum XmlEntityValue {
     Text(String),
 }
 
+// info/src/lib.rs: pub enum XmlDeclarationAttType (real)
+pub enum XmlDeclarationAttType {
+    CData,
+    Entities,
+    Entity,
+    Id,
+    IdRef,
+    IdRefs,
+    NmToken,
+    NmTokens,
+    Notation(Vec<String>),
+    Enumeration(Vec<String>),
+}
+
+// ---- the specification (XML 1.0 3.3.3), over an abstract entity table ----
+
+pub open spec fn is_xml_ws(c: char) -> bool { c == ' ' || c == '\t' || c == '\n' || c == '\r' }
+pub open spec fn ws_norm(c: char) -> char { if is_xml_ws(c) { ' ' } else { c } }
+pub open spec fn ws_normalized(s: Seq<char>) -> Seq<char> {
+    Seq::new(s.len(), |i: int| if is_xml_ws(s[i]) { ' ' } else { s[i] })
+}
+
+// the character a reference &#digits; / &#xdigits; denotes (None: not a number, or not a legal character) -- what
+// char_from_char10/16 compute (units/info_helpers.py, C02)
+pub uninterp spec fn char_ref_value(digits: Seq<char>, radix: u32) -> Option<char>;
+// the declared entities of the document behind a context, by name (then the five predefined ones)
+pub uninterp spec fn entity_values(ctx: Context, name: Seq<char>) -> Option<Seq<XmlEntityValue>>;
+// the bound the code puts on a chain of entity references (number of declared entities + 1)
+pub uninterp spec fn chain_bound(ctx: Context) -> nat;
+
+// replacement text of the entity `name`, following at most `depth` further levels of references; literal text is white-space
+// normalized; `nc` says whether characters given by character references are normalized too.  nc = true is what 3.3.3
+// prescribes for an entity referenced from an attribute value (the replacement text is normalized as a whole); nc = false
+// is what the expansion function computes on its own.
+pub open spec fn expand_name(ctx: Context, name: Seq<char>, depth: nat, nc: bool) -> Option<Seq<char>>
+    decreases depth, 1nat, 0nat,
+{
+    match entity_values(ctx, name) {
+        None => None,
+        Some(vals) => expand_values(ctx, vals, depth, nc),
+    }
+}
+pub open spec fn expand_values(ctx: Context, vals: Seq<XmlEntityValue>, depth: nat, nc: bool) -> Option<Seq<char>>
+    decreases depth, 0nat, vals.len(),
+{
+    if vals.len() == 0 {
+        Some(Seq::<char>::empty())
+    } else {
+        match (expand_values(ctx, vals.drop_last(), depth, nc), expand_piece(ctx, vals.last(), depth, nc)) {
+            (Some(a), Some(b)) => Some(a + b),
+            _ => None,
+        }
+    }
+}
+pub open spec fn expand_piece(ctx: Context, v: XmlEntityValue, depth: nat, nc: bool) -> Option<Seq<char>>
+    decreases depth, 0nat, 0nat,
+{
+    match v {
+        XmlEntityValue::Character(digits, radix) => match char_ref_value(digits@, radix) {
+            Some(c) => Some(seq![if nc { ws_norm(c) } else { c }]),
+            None => None,
+        },
+        XmlEntityValue::Entity(n) => if depth == 0 { None } else { expand_name(ctx, n@, (depth - 1) as nat, nc) },
+        XmlEntityValue::Parameter(_) => None,   // not supported: an error
+        XmlEntityValue::Text(t) => Some(ws_normalized(t@)),
+    }
+}
+// normalizing the white space of the expansion as a whole IS the prescribed value
+pub proof fn lemma_normalize_whole(ctx: Context, vals: Seq<XmlEntityValue>, depth: nat)
+    ensures expand_values(ctx, vals, depth, false) is Some <==> expand_values(ctx, vals, depth, true) is Some,
+            expand_values(ctx, vals, depth, false) is Some ==> ws_normalized(expand_values(ctx, vals, depth, false)->Some_0) =~= expand_values(ctx, vals, depth, true)->Some_0,
+    decreases depth, vals.len(),
+{
+    if vals.len() > 0 {
+        lemma_normalize_whole(ctx, vals.drop_last(), depth);
+        match vals.last() {
+            XmlEntityValue::Entity(n) => {
+                if depth > 0 {
+                    match entity_values(ctx, n@) {
+                        Some(v2) => { lemma_normalize_whole(ctx, v2, (depth - 1) as nat); }
+                        None => {}
+                    }
+                }
+            }
+            _ => {}
+        }
+        let a = expand_values(ctx, vals.drop_last(), depth, false);
+        let b = expand_piece(ctx, vals.last(), depth, false);
+        if a is Some && b is Some {
+            assert(ws_normalized(a->Some_0 + b->Some_0) =~= ws_normalized(a->Some_0) + ws_normalized(b->Some_0));
+            assert(ws_normalized(b->Some_0) =~= expand_piece(ctx, vals.last(), depth, true)->Some_0);
+        }
+    }
+}
+pub proof fn lemma_normalize_name(ctx: Context, name: Seq<char>, depth: nat)
+    ensures expand_name(ctx, name, depth, false) is Some <==> expand_name(ctx, name, depth, true) is Some,
+            expand_name(ctx, name, depth, false) is Some ==> ws_normalized(expand_name(ctx, name, depth, false)->Some_0) =~= expand_name(ctx, name, depth, true)->Some_0,
+{
+    match entity_values(ctx, name) {
+        Some(v) => { lemma_normalize_whole(ctx, v, depth); }
+        None => {}
+    }
+}
+pub proof fn lemma_expand_step(ctx: Context, vals: Seq<XmlEntityValue>, i: int, depth: nat, nc: bool)
+    requires 0 <= i < vals.len(),
+    ensures expand_values(ctx, vals.take(i + 1), depth, nc) == match (expand_values(ctx, vals.take(i), depth, nc), expand_piece(ctx, vals[i], depth, nc)) {
+                (Some(a), Some(b)) => Some(a + b),
+                _ => None,
+            },
+{
+    assert(vals.take(i + 1).drop_last() =~= vals.take(i));
+    assert(vals.take(i + 1).last() == vals[i]);
+}
+// a piece without a value makes the whole list valueless
+pub proof fn lemma_expand_none(ctx: Context, vals: Seq<XmlEntityValue>, i: int, depth: nat, nc: bool)
+    requires 0 <= i <= vals.len(),
+    ensures expand_values(ctx, vals.take(i), depth, nc) is None ==> expand_values(ctx, vals, depth, nc) is None,
+    decreases vals.len() - i,
+{
+    if i == vals.len() {
+        assert(vals.take(i) =~= vals);
+    } else {
+        lemma_expand_step(ctx, vals, i, depth, nc);
+        lemma_expand_none(ctx, vals, i + 1, depth, nc);
+    }
+}
+
+// ---- the attribute's own pieces ----
+pub struct CharRefItem { pub code: String }      // XmlCharReference: `character_code()` is the referenced character
+pub struct EntityRefItem { pub name: String }    // XmlUnexpandedEntityReference
+pub struct TextItem { pub text: String }         // XmlText
+pub enum XmlAttributeValue {
+    Char(CharRefItem),
+    Entity(EntityRefItem),
+    Text(TextItem),
+}
+pub open spec fn attr_piece(ctx: Context, v: XmlAttributeValue) -> Option<Seq<char>> {
+    match v {
+        XmlAttributeValue::Char(c) => Some(c.code@),                                      // the referenced character, unchanged
+        XmlAttributeValue::Entity(e) => expand_name(ctx, e.name@, chain_bound(ctx), true),     // replacement text, normalized as a whole
+        XmlAttributeValue::Text(t) => Some(ws_normalized(t.text@)),
+    }
+}
+pub open spec fn attr_pieces(ctx: Context, vals: Seq<XmlAttributeValue>) -> Option<Seq<char>>
+    decreases vals.len(),
+{
+    if vals.len() == 0 {
+        Some(Seq::<char>::empty())
+    } else {
+        match (attr_pieces(ctx, vals.drop_last()), attr_piece(ctx, vals.last())) {
+            (Some(a), Some(b)) => Some(a + b),
+            _ => None,
+        }
+    }
+}
+pub proof fn lemma_pieces_step(ctx: Context, vals: Seq<XmlAttributeValue>, i: int)
+    requires 0 <= i < vals.len(),
+    ensures attr_pieces(ctx, vals.take(i + 1)) == match (attr_pieces(ctx, vals.take(i)), attr_piece(ctx, vals[i])) {
+                (Some(a), Some(b)) => Some(a + b),
+                _ => None,
+            },
+{
+    assert(vals.take(i + 1).drop_last() =~= vals.take(i));
+    assert(vals.take(i + 1).last() == vals[i]);
+}
+pub proof fn lemma_pieces_none(ctx: Context, vals: Seq<XmlAttributeValue>, i: int)
+    requires 0 <= i <= vals.len(),
+    ensures attr_pieces(ctx, vals.take(i)) is None ==> attr_pieces(ctx, vals) is None,
+    decreases vals.len() - i,
+{
+    if i == vals.len() {
+        assert(vals.take(i) =~= vals);
+    } else {
+        lemma_pieces_step(ctx, vals, i);
+        lemma_pieces_none(ctx, vals, i + 1);
+    }
+}
+
+// tokens separated by single spaces: what `split(' ').filter(non-empty).collect::<Vec<&str>>().join(" ")` returns
+pub open spec fn first_space(s: Seq<char>) -> int
+    decreases s.len(),
+{
+    if s.len() == 0 || s[0] == ' ' { 0 } else { 1 + first_space(s.drop_first()) }
+}
+pub open spec fn collapsed(s: Seq<char>) -> Seq<char>
+    decreases s.len(),
+{
+    if s.len() == 0 {
+        s
+    } else if s[0] == ' ' {
+        collapsed(s.drop_first())
+    } else {
+        let k = first_space(s);
+        if 0 < k <= s.len() {
+            let rest = collapsed(s.subrange(k, s.len() as int));
+            if rest.len() == 0 { s.subrange(0, k) } else { s.subrange(0, k) + seq![' '] + rest }
+        } else {
+            s   // unreachable: 0 < first_space(s) <= s.len() when s[0] is not a space
+        }
+    }
+}
+#[verifier::external_body]
+pub fn shim_collapse_spaces(s: String) -> (r: String)
+    ensures r@ == collapsed(s@),
+{
+    s.split(' ').filter(|v| !v.is_empty()).collect::<Vec<&str>>().join(" ")
+}
+
+#[derive(Clone, Copy)]
 pub struct Context { pub h: usize }
-pub struct EntityRef { pub h: usize }
+pub struct EntityRef { pub vals: Ghost<Seq<XmlEntityValue>> }
 impl Context {
-    // the entity table of the live document (declared entities, then the five predefined ones): nothing is promised
+    // the entity table of the live document: an assumed callee, tied to `entity_values`
     #[verifier::external_body]
-    pub fn entity(&self, name: &str) -> (r: error::Result<EntityRef>) { unimplemented!() }
-    // number of declared entities + 1 (post-repair bound of the reference chain)
+    pub fn entity(&self, name: &str) -> (r: error::Result<EntityRef>)
+        ensures (r is Ok <==> entity_values(*self, name@) is Some),
+                r is Ok ==> r->Ok_0.vals@ == entity_values(*self, name@)->Some_0,
+    { unimplemented!() }
     #[verifier::external_body]
-    pub fn shim_entity_chain_bound(&self) -> (r: usize) { unimplemented!() }
+    pub fn shim_entity_chain_bound(&self) -> (r: usize)
+        ensures r as nat == chain_bound(*self),
+    { unimplemented!() }
 }
 pub open spec fn radix_ok(v: XmlEntityValue) -> bool { v is Character ==> (v->Character_1 == 10 || v->Character_1 == 16) }
 // entity.borrow().values().unwrap_or_default()
 #[verifier::external_body]
 pub fn shim_entity_values(entity: &EntityRef) -> (r: Vec<XmlEntityValue>)
-    ensures forall|i: int| 0 <= i < r@.len() ==> radix_ok(#[trigger] r@[i]),
+    ensures r@ == entity.vals@,
+            forall|i: int| 0 <= i < r@.len() ==> radix_ok(#[trigger] r@[i]),
 { unimplemented!() }
 
-// verified elsewhere (units/info_helpers.py): assumed callees here
+// verified in units/info_helpers.py (C02, C11); assumed here with the contracts proved there
 #[verifier::external_body]
-pub fn char_from_char10(value: &str) -> (r: error::Result<char>) { unimplemented!() }
+pub fn char_from_char10(value: &str) -> (r: error::Result<char>)
+    ensures (r is Ok <==> char_ref_value(value@, 10) is Some), r is Ok ==> r->Ok_0 == char_ref_value(value@, 10)->Some_0,
+{ unimplemented!() }
 #[verifier::external_body]
-pub fn char_from_char16(value: &str) -> (r: error::Result<char>) { unimplemented!() }
+pub fn char_from_char16(value: &str) -> (r: error::Result<char>)
+    ensures (r is Ok <==> char_ref_value(value@, 16) is Some), r is Ok ==> r->Ok_0 == char_ref_value(value@, 16)->Some_0,
+{ unimplemented!() }
 #[verifier::external_body]
-pub fn normalize_ws(value: &str) -> (r: String) { unimplemented!() }
+pub fn normalize_ws(value: &str) -> (r: String)
+    ensures r@ == ws_normalized(value@),
+{ unimplemented!() }
 
 #[verifier::external_body]
-pub fn shim_push(s: &mut String, c: char) { s.push(c) }
+pub fn shim_push(s: &mut String, c: char)
+    ensures final(s)@ == old(s)@.push(c),
+{ s.push(c) }
 #[verifier::external_body]
-pub fn shim_push_str(s: &mut String, t: &str) { s.push_str(t) }
+pub fn shim_push_str(s: &mut String, t: &str)
+    ensures final(s)@ == old(s)@ + t@,
+{ s.push_str(t) }
 #[verifier::external_body]
-pub fn shim_string_new() -> (r: String) { String::new() }
+pub fn shim_string_new() -> (r: String)
+    ensures r@ == Seq::<char>::empty(),
+{ String::new() }
+#[verifier::external_body]
+pub fn shim_char_to_string(c: char) -> (r: String)
+    ensures r@ == seq![c],
+{ c.to_string() }
 #[verifier::external_body]
 pub fn shim_error_payload(prefix: &str, v: &str) -> (r: String) { unimplemented!() /* format!("&{};", v) / format!("%{};", v) */ }
 
@@ -86,6 +326,29 @@ pub uninterp spec fn entity_rank(name: Seq<char>) -> nat;
 
 @FNS@
 
+// the slice borrowed from the RefCell, seen as a list of the same elements
+#[verifier::external_body]
+pub fn shim_values_of(v: &Vec<XmlAttributeValue>) -> (r: Vec<XmlAttributeValue>)
+    ensures r@ == v@,
+{ unimplemented!() }
+
+pub struct XmlAttribute {
+    pub values: Vec<XmlAttributeValue>,
+    pub ctx: Context,
+    pub declared: Option<XmlDeclarationAttType>,
+}
+impl XmlAttribute {
+    pub fn context(&self) -> (r: &Context) ensures *r == self.ctx { &self.ctx }
+    // the type of the ATTLIST declaration for this attribute, if one has been read (declaration_def: live document)
+    #[verifier::external_body]
+    pub fn declaration_type(&self) -> (r: Option<XmlDeclarationAttType>)
+        ensures r == self.declared,
+    { unimplemented!() }
+    pub open spec fn tokenized(self) -> bool { self.declared is Some && !(self.declared->Some_0 is CData) }
+
+    //@@ normalized_value
+}
+
 } // verus!
 fn main() {}
 '''
@@ -93,36 +356,76 @@ fn main() {}
 RULES = [
     Rule('R48', r'entity\.borrow\(\)\.values\(\)\.unwrap_or_default\(\)', 'shim_entity_values(&entity)', 'RefCell borrow dropped (A4); Option::unwrap_or_default of the value list -> shim'),
     Rule('R48', r'let mut parsed = String::new\(\);', 'let mut parsed = shim_string_new();', 'String::new -> shim'),
-    Rule('R48', r'parsed\.push\(((?:char_from_char1[06]\(v\)\?))\)', r'shim_push(&mut parsed, \1)', 'String::push -> shim'),
-    Rule('R48', r'parsed\.push_str\(v\.as_str\(\)\)', 'shim_push_str(&mut parsed, v.as_str())', 'String::push_str -> shim'),
-    Rule('R48', r'parsed\.push_str\(normalize_ws\(v\)\.as_str\(\)\)', 'shim_push_str(&mut parsed, normalize_ws(v).as_str())', 'String::push_str -> shim'),
+    Rule('R48', r'parsed\.push\(', 'shim_push(&mut parsed, ', 'String::push -> shim'),
+    Rule('R48', r'parsed\.push_str\(', 'shim_push_str(&mut parsed, ', 'String::push_str -> shim'),
     Rule('R6', r'format!\("&\{\};", v\)', 'shim_error_payload("&", v)', 'format! of an error payload -> unconstrained shim'),
     Rule('R6', r'format!\("%\{\};", v\)', 'shim_error_payload("%", v)', 'format! of an error payload -> unconstrained shim'),
     Rule('R21', r'(unimplemented|unreachable)!\([^)]*\)', 'shim_unimplemented()', 'panic site -> call of a function with `requires false`'),
     Rule('R48', r'match r \{\s*10 =>', 'match *r { 10 =>', 'match on a reference to an integer -> on the integer'),
 ]
-LOOP = {0: dict(invariant=[('values_have_a_legal_radix', 'forall|i: int| 0 <= i < __it.seq().len() ==> radix_ok(#[trigger] __it.seq()[i])')])}
 R_FOR = Rule('R47', r'for value in shim_entity_values\(&entity\) \{', 'for value in __it: shim_entity_values(&entity) /*@loop*/ {', 'iterator named so that the invariant can refer to the values')
+
+LOOP_WITHIN = [
+    ('values_have_a_legal_radix', 'forall|i: int| 0 <= i < __it.seq().len() ==> radix_ok(#[trigger] __it.seq()[i])'),
+    ('C11:expanded_so_far_is_the_normalized_prefix', '__it.seq() == entity.vals@ && entity_values(*context, name@) == Some(entity.vals@) && expand_values(*context, __it.seq().take(__it.index@), DEPTH, false) == Some(parsed@)'),
+]
+
+NV_RULES = [
+    Rule('R48', r'let mut normalized = String::new\(\);', 'let mut normalized = shim_string_new();', 'String::new -> shim'),
+    Rule('R47', r'for value in self\.values\.borrow\(\)\.as_slice\(\) \{', 'for value in __it: shim_values_of(&self.values) /*@loop*/ {', 'RefCell borrow dropped (A4); for over the slice -> for over a copy of the list (same elements, same order), iterator named'),
+    Rule('R48', r'v\.as_char_reference\(\)\.unwrap\(\)\.borrow\(\)\.character_code\(\)', 'v.code.as_str()',
+         'the Char variant always holds a character-reference item (XmlAttributeValue::try_from): item access -> field of the environment item'),
+    Rule('R48', r'v\.as_unexpanded\(\)\.unwrap\(\)\.borrow\(\)\.name\(\)', 'v.name.as_str()', 'the Entity variant always holds an unexpanded entity reference: item access -> field'),
+    Rule('R48', r'v\.as_text\(\)\.unwrap\(\)\.borrow\(\)\.text\.as_str\(\)', 'v.text.as_str()', 'the Text variant always holds a text item: item access -> field'),
+    Rule('R48', r'normalized\.push_str\(', 'shim_push_str(&mut normalized, ', 'String::push_str -> shim'),
+    Rule('R48', r'normalized = normalized\s*\.split\(\' \'\)\s*\.filter\(\|v\| !v\.is_empty\(\)\)\s*\.collect::<Vec<&str>>\(\)\s*\.join\(" "\);', 'normalized = shim_collapse_spaces(normalized);',
+         'split / filter / join -> shim whose body is that expression and whose contract is "the tokens separated by single spaces"'),
+]
+LOOP_NV = {0: dict(invariant=[
+    ('C11:normalized_so_far_is_the_concatenation_of_the_pieces', '__it.seq() == self.values@ && attr_pieces(self.ctx, __it.seq().take(__it.index@)) == Some(normalized@)'),
+])}
 
 
 def build(repo=None):
     src = open(os.path.join(repo or U.REPO, FI)).read()
     repaired = 'fn attr_value_from_name_within(' in src
     fns = {}
-    P = ['C03']
+    P3, P11 = ['C03'], ['C11']
+    both = ['C03', 'C11']
+    depth = 'depth as nat'
+    step = f'proof {{ lemma_expand_step(*context, entity.vals@, __it.index@, {depth}, false); lemma_expand_none(*context, entity.vals@, __it.index@ + 1, {depth}, false); }}'
     if repaired:
-        fns['within'] = Fn(FI, None, 'attr_value_from_name_within', props=P, safety_props=P, label='info::attr_value_from_name_within',
-                           rules=RULES + [R_FOR], loops=LOOP, decreases='depth')
-        fns['outer'] = Fn(FI, None, 'attr_value_from_name', props=P, safety_props=P, label='info::attr_value_from_name',
+        fns['within'] = Fn(
+            FI, None, 'attr_value_from_name_within', props=both, safety_props=P3, label='info::attr_value_from_name_within',
+            rules=RULES + [R_FOR], loops={0: dict(invariant=[(l, e.replace('DEPTH', depth)) for (l, e) in LOOP_WITHIN])},
+            decreases='depth',
+            inject=[(r'match &value \{', step, 'before'),
+                    (r'Ok\(parsed\)', 'proof { assert(entity.vals@.take(entity.vals@.len() as int) =~= entity.vals@); }', 'before')],
+            ensures=[('C11:value_is_the_replacement_text_with_literal_text_normalized', f'r is Ok ==> expand_name(*context, name@, {depth}, false) == Some(r->Ok_0@)'),
+                     ('C11:error_only_when_the_expansion_has_no_value', f'r is Err ==> expand_name(*context, name@, {depth}, false) is None')])
+        fns['outer'] = Fn(FI, None, 'attr_value_from_name', props=both, safety_props=P3, label='info::attr_value_from_name',
                           rules=[Rule('R48', r'let depth = context\s*\.document\(\).*?\+ 1;', 'let depth = context.shim_entity_chain_bound();',
-                                      'count of the declared entities over the live document -> shim (any bound terminates the recursion)')])
+                                      'count of the declared entities over the live document -> shim tied to chain_bound (any bound terminates the recursion)')],
+                          ensures=[('C11:value_is_the_replacement_text_with_literal_text_normalized', 'r is Ok ==> expand_name(*context, name@, chain_bound(*context), false) == Some(r->Ok_0@)'),
+                                   ('C11:error_only_when_the_expansion_has_no_value', 'r is Err ==> expand_name(*context, name@, chain_bound(*context), false) is None')])
+        fns['normalized_value'] = Fn(
+            FI, 'impl Attribute for XmlAttribute', 'normalized_value', props=P11, safety_props=P11, label='XmlAttribute::normalized_value',
+            sig_rules=[Rule('R12', r'^fn ', 'pub fn ', 'visibility (no runtime meaning)')],
+            rules=NV_RULES, loops=LOOP_NV,
+            inject=[(r'match value \{', 'proof { lemma_pieces_step(self.ctx, self.values@, __it.index@); lemma_pieces_none(self.ctx, self.values@, __it.index@ + 1); if let XmlAttributeValue::Entity(e) = self.values@[__it.index@] { lemma_normalize_name(self.ctx, e.name@, chain_bound(self.ctx)); } }', 'before'),
+                    (r'if let Some\(ty\) = self\.declaration_type\(\) \{', 'proof { assert(self.values@.take(self.values@.len() as int) =~= self.values@); }', 'before')],
+            ensures=[('C11:value_is_the_concatenation_of_the_normalized_pieces_collapsed_for_tokenized_types',
+                      'r is Ok ==> attr_pieces(self.ctx, self.values@) is Some && r->Ok_0@ == (if self.tokenized() { collapsed(attr_pieces(self.ctx, self.values@)->Some_0) } else { attr_pieces(self.ctx, self.values@)->Some_0 })'),
+                     ('C11:error_only_when_a_piece_has_no_value', 'r is Err ==> attr_pieces(self.ctx, self.values@) is None')])
         slots = '//@@ within\n\n//@@ outer\n'
+        env = ENV
     else:
-        fns['outer'] = Fn(FI, None, 'attr_value_from_name', props=P, safety_props=P, label='info::attr_value_from_name',
-                          rules=RULES + [R_FOR], loops=LOOP, decreases='entity_rank(name@)')
+        fns['outer'] = Fn(FI, None, 'attr_value_from_name', props=P3, safety_props=P3, label='info::attr_value_from_name',
+                          rules=RULES + [R_FOR], loops={0: dict(invariant=[LOOP_WITHIN[0]])}, decreases='entity_rank(name@)')
         slots = '//@@ outer\n'
-    return ENV.replace('@FNS@', slots), fns
+        env = ENV.replace('    //@@ normalized_value\n', '')
+    return env.replace('@FNS@', slots), fns
 
 
 TEMPLATE, FNS = build()
-UNIT = dict(name='c03_entity', template=TEMPLATE, fns=FNS, props=['C03'], build=build)
+UNIT = dict(name='c03_entity', template=TEMPLATE, fns=FNS, props=['C03', 'C11'], build=build)
